@@ -9,7 +9,7 @@ from cgv.harness import HarnessError, Violation, lib, need
 ID = "C10"
 RULE = (
     "cases: blackbox-free lint-clean acyclic circuit specs over all gate types and arities (fan-in 1..5) "
-    "with constants, 0..5 inputs. The result of tx.ternary(c) is simulated by the reference simulator "
+    "with constants, 0..5 inputs; a third of the cases draws node names from a pool of names that look like the companion / helper names the transform creates (a_X, a_not, a_is_0 ...). The result of tx.ternary(c) is simulated by the reference simulator "
     "over all 4^|inputs| valuations of (input, companion) pairs = all 3^|inputs| ternary patterns x both "
     "binary values under X; an independent bit-parallel Kleene evaluator (cross-checked against a scalar "
     "one) decides for every node whether it is X and its value; mapping[n] must be 1 exactly when Kleene "
@@ -19,7 +19,7 @@ RULE = (
     "Non-trivial: some pattern has an X fan-in masked by a controlling value at an and/or-family gate "
     "with fan-in >= 2. Distinct by digest."
 )
-ASSUMPTIONS = ["reference simulator and Kleene evaluator in cgv (refsim.kleene + bit-parallel variant)", "benign names"]
+ASSUMPTIONS = ["reference simulator and Kleene evaluator in cgv (refsim.kleene + bit-parallel variant)"]
 EXHAUSTIVE_NOTE = "core: each gate type x fan-in 1..3 single-gate circuits and with a constant operand, all patterns"
 EXAMPLES = {"quick": 2000, "thorough": 40000}
 
@@ -38,11 +38,16 @@ def core(ctx):
         yield {"spec": {"name": "c", "nodes": [["a", "1", [], False], ["g", t, ["a"], True]], "bbtypes": [], "insts": []}}
 
 
+# names that look like the companion / helper names the transform creates
+HELPERLIKE = ["a", "b", "c", "a_not", "b_not", "c_not", "a_X", "b_X", "a_is_0", "a_is_1", "b_is_1", "a_not_x", "a_not_X",
+              "a_x_in_fi", "a_0_not_in_fi", "a_1_not_in_fi", "a_X_0", "a_X_X", "b_not_x", "b_is_0", "c_X", "c_is_0"]
+
+
 def strategy(ctx):
-    return st.builds(
-        lambda s: {"spec": s},
-        S.circuit_spec(min_inputs=0, max_inputs=5, min_gates=1, max_gates=9, max_fanin=5, io_outputs=True),
-    )
+    plain = S.circuit_spec(min_inputs=0, max_inputs=5, min_gates=1, max_gates=9, max_fanin=5, io_outputs=True)
+    adv = S.circuit_spec(min_inputs=1, max_inputs=4, min_gates=1, max_gates=8, max_fanin=4, io_outputs=True,
+                         pools=(HELPERLIKE,))
+    return st.builds(lambda s: {"spec": s}, st.one_of(plain, plain, adv))
 
 
 def kleene_tables(c, isx_in, val_in, W):
@@ -192,4 +197,6 @@ def check(case, ctx):
         labels.append("x_masked_by_controlling_value")
     if specs.spec_stats(spec)["parity3"]:
         labels.append("parity_fanin>=3")
+    if any("_" in x[0] for x in spec["nodes"]):
+        labels.append("helper_like_names")
     return {"nontrivial": masked, "labels": labels}
